@@ -58,10 +58,10 @@ class VCSink:
     def __init__(self, res, prop, max_samples=3):
         self.res, self.prop, self.max_samples = res, prop, max_samples
 
-    def check(self, path, name, claim, axioms=(), site=None, describe=None, model_of=None, timeout_ms=None):
+    def check(self, path, name, claim, axioms=(), site=None, describe=None, model_of=None, timeout_ms=None, prefer=()):
         """name: VC id without the property prefix. describe(model)->dict builds the candidate's
         concrete input from the model."""
-        r, m, nontrivial = path.check(claim, axioms, timeout_ms)
+        r, m, nontrivial = path.check(claim, axioms, timeout_ms, prefer)
         res = self.res
         res["vcs"] += 1
         if nontrivial:
